@@ -104,7 +104,7 @@ PROPS = {
     },
     "C11": {
         "modules": ["Qvnt.Props.C11"],
-        "tie": [tie(r"creg_(set|xor|reset|get)_eq|notW_eq", modules=("Qvnt.Lemmas.GenRegs",), audit="Qvnt/Audit/GenRegs.lean", sources=r"UNSUPPORTED class\.rs"), tie2(r"creg_get_by_mask_eq|quant_(reset_by_mask|measure_mask|reset)_eq|bitsList_eq", r"UNSUPPORTED (quant\.rs: register/quant\.rs::(reset_by_mask|measure_mask|reset):|class\.rs|bits_iter\.rs)")],
+        "tie": [tie(r"creg_(set|xor|reset|get)_eq|notW_eq", modules=("Qvnt.Lemmas.GenRegs",), audit="Qvnt/Audit/GenRegs.lean", sources=r"UNSUPPORTED class\.rs"), tie2(r"creg_get_by_mask_eq|quant_(reset_by_mask|measure_mask|reset)_eq|bitsList_eq", r"UNSUPPORTED (quant\.rs: register/quant\.rs::(reset_by_mask|measure_mask|reset):|class\.rs|bits_iter\.rs)"), tie2(r"extop_(push|append)_eq", r"UNSUPPORTED ext_op\.rs")],
         "suites": [suite("intnu", dict(count=600), dict(count=20000))],
         "mismatch_tags": INT_STRUCT,
         "spec_tags": [r"refsem\.(psi|creg|run)", r"c11\..*", r"iexpect\.accept"],
@@ -112,7 +112,7 @@ PROPS = {
         "assumptions": ASSUME_COMMON + ["measurement outcomes are inputs (the implementation's draw log); declared register sizes are positive in C11_refine_partial (a zero-size register is the known finding D22)"],
         "level_text": "Lean theorems (Props/C11.lean): Sym::finish factors through the event list of the block queue; each statement kind contributes exactly its event (an `if` ALWAYS its own cond event, never merged into a preceding unconditional block; measure and reset their own events; barrier nothing); a cond event applies its operator iff get_by_mask of the condition register equals the value; storeBits changes exactly the paired classical bits (set / xor mode); the interpreter's masks are the reference masks; and the whole pipeline Interp.new -> Sym.finish equals the statement-by-statement reference execution (Spec.refRun) on final state, classical register and remaining draws, for every accepted program with positive register sizes, both measurement modes, user-defined gates included (C11_refine_partial; the unrestricted statement is false because of D22 and is kept in a comment with its counterexample). Tied to the code by the intnu suite (random programs mixing gates, measure in bit and register form, if on any register / value / position, reset of bits and registers, barriers): interpreter state and execution compared with the model for the logged outcomes, and with the reference semantics.",
         "level_note": "Trusted: Lean kernel + standard axioms; model of int/mod.rs, ext_op.rs, sym.rs (after the D11/D12 repairs). reset statistics (C11 'does not change the outcome statistics of other qubits') follow from reset = measure + X and C07_chain.",
-        "technique": tech_tie("classical-bit set / xor / reset / get_by_mask functions and reset_by_mask / measure_mask are"),
+        "technique": tech_tie("classical-bit set / xor / reset / get_by_mask functions, reset_by_mask / measure_mask and the block queue (Op::push, Op::append) are"),
         "design_ref": "DESIGN.md section 5, C11 and Appendix B",
     },
     "C12": {
@@ -130,14 +130,15 @@ PROPS = {
     },
     "C17": {
         "modules": ["Qvnt.Props.C17"],
+        "tie": [tie2(r"extop_(push|append)_eq", r"UNSUPPORTED ext_op\.rs")],
         "suites": [suite("c17", dict(count=300), dict(count=10000))],
         "mismatch_tags": INT_STRUCT,
         "spec_tags": [r"isame", r"iexpect\.asts"],
-        "trusted_base": TB_COMMON,
+        "trusted_base": [TB_TIE2] + TB_COMMON,
         "assumptions": ASSUME_COMMON,
         "level_text": "Lean theorems (Props/C17.lean, 15): processing a concatenation is processing the parts in turn; adding chunks one by one (add_ast, or ast_changes + append_int: the same function in the model after the repairs) is accepted iff the whole text is, fails with the same error, and yields an interpreter with equal registers, gate definitions, measurement mode and an observationally equivalent block queue (equal runs for every outcome stream); the record of accepted chunks lists each chunk once, in order; running is invariant under that equivalence; reset after a run restores exactly Sym::new, so re-running reproduces the run from |0...0>. Tied to the code by the c17 suite: every program is fed whole, chunk by chunk through add_ast, and through ast_changes + append_int (1..5 chunks, with and without xor mode), executed with the same seed and compared on final state and classical register; chunk counts checked; reset+finish and init compared with the first run.",
         "level_note": "Trusted: Lean kernel + standard axioms; model of add_ast / ast_changes / append_int (after the D18/D19 repairs), ext_op.rs append/push, sym.rs.",
-        "technique": TECH,
+        "technique": tech_tie("block queue (ext_op.rs: Op::push, Op::append) is"),
         "design_ref": "DESIGN.md section 5, C17 and Appendix B",
     },
     "C18": {
@@ -181,15 +182,16 @@ PROPS = {
     },
     "C10": {
         "modules": ["Qvnt.Props.C10"],
+        "tie": [tie2(r"extop_(push|append)_eq", r"UNSUPPORTED ext_op\.rs")],
         "suites": [suite("int", dict(count=500), dict(count=15000)), suite("c10e", dict(count=300), dict(count=6000)),
                    suite("c10f", dict(count=400), dict(count=12000))],
         "mismatch_tags": INT_STRUCT,
         "spec_tags": [r"refsem\.(psi|creg|run)", r"iexpect\.accept", r"c10\..*", r"isame"],
-        "trusted_base": TB_COMMON,
+        "trusted_base": [TB_TIE2] + TB_COMMON,
         "assumptions": ASSUME_COMMON + ["text -> AST (crate qvnt-qasm) and expression text -> RPN (crate meval) are external and not modelled: the model starts from the AST / RPN the real crates produced; the intended value of generated expressions is known to the generator and compared with what the pipeline applied"],
         "level_text": "Lean theorems (Props/C10.lean, 20): bit k of the alias mask is set iff the k-th declared (qu)bit belongs to that register, a register declared after `pre` occupies bits pre.length .. pre.length+n-1 and r[i] resolves to 2^(offset+i), distinct (qu)bits are disjoint; every accepted gate statement changes the queue by exactly one push of its operator and nothing else, measure/reset by exactly one separator block, barrier/declarations not at all, and statements compose in program order; one level of a user-defined gate is its body with formal qubits and parameters substituted, in body order. Tied to the code by the int suite (random programs with several registers, interleaved cregs, parameterised nested gate definitions, expression trees): interpreter state and executed result compared with the model, and the executed result compared with the statement-by-statement reference semantics (Spec/RefSem); by the c10f suite: programs with nested, repeatedly called and built-in-shadowing user gates are run against their flattened form (every expansion done by the generator with the actual qubits and parameter values) through the implementation itself, final states must agree.",
         "level_note": "Trusted: Lean kernel + standard axioms; hand-written model of int/mod.rs, macros.rs, parse.rs (RPN evaluation); external parsers as stated.",
-        "technique": TECH,
+        "technique": tech_tie("block queue (ext_op.rs: Op::push, Op::append) is"),
         "design_ref": "DESIGN.md section 5, C10",
     },
     "C13": {
@@ -244,7 +246,7 @@ PROPS = {
     },
     "C20": {
         "modules": ["Qvnt.Props.C20"],
-        "tie": [tie(r"creg_.*_eq|notW_eq", modules=("Qvnt.Lemmas.GenRegs",), audit="Qvnt/Audit/GenRegs.lean", sources=r"UNSUPPORTED class\.rs"), tie2(r"bits_(from|next)_eq|bitsCollect_eq|bitsList_eq|creg_(get_by_mask|mul|mul_assign|new)_eq|h_(loop|h)_eq", r"UNSUPPORTED (bits_iter\.rs|class\.rs|h\.rs)")],
+        "tie": [tie(r"creg_.*_eq|notW_eq", modules=("Qvnt.Lemmas.GenRegs",), audit="Qvnt/Audit/GenRegs.lean", sources=r"UNSUPPORTED class\.rs"), tie2(r"bits_(from|next)_eq|bitsCollect_eq|bitsList_eq|creg_(get_by_mask|mul|mul_assign|new)_eq|h_(loop|h)_eq|vreg_\w+_eq|quant_get_vreg(_by)?_eq", r"UNSUPPORTED (bits_iter\.rs|class\.rs|h\.rs|virtl\.rs|quant\.rs: register/quant\.rs::get_vreg)")],
         "suites": [
             suite("bits", dict(count=500, timeout=60), dict(count=20000, timeout=600)),
         ],
@@ -254,7 +256,7 @@ PROPS = {
         "assumptions": ASSUME_COMMON + ["machine words are 64 bit (usize)", "CReg shifts by 64 or more (a Rust overflow panic in debug builds) are outside the model"],
         "level_text": "31 Lean theorems (Props/C20.lean): the Rust bit iterator, modelled with the wrapping `pos <<= 1` and explicit fuel, never runs out of fuel and returns exactly the ascending set bits for EVERY 64-bit mask (bit 63 included); VReg contents / every index form are the union of the selected bits; a view exists iff the mask lies inside the register; CReg keeps value < 2^n under with_state/set/xor (masks inside)/reset/set_num/product, updates change exactly the given bits, the product concatenates with the left factor low, the printed form is n binary digits; the h / qft_swapped cursor loops terminate on every word. Tied to the code by running the same operations (masks drawn from the whole word range, top bit set in >50% of cases) on the real crate and the model, plus spec oracles on the implementation's outputs.",
         "level_note": "Trusted: Lean kernel + propext/Classical.choice/Quot.sound; hand-written model of bits_iter.rs, class.rs, virtl.rs, multi/h.rs and multi/qft.rs loops, validated by the correspondence run on every check.",
-        "technique": tech_tie("bit iterator (BitsIter::next), classical-register functions (class.rs incl. get_by_mask, *, *=) and the cursor loop of multi::h::h are"),
+        "technique": tech_tie("bit iterator (BitsIter::next), virtual registers (virtl.rs: construction and every index form, get_vreg / get_vreg_by), classical-register functions (class.rs incl. get_by_mask, *, *=) and the cursor loop of multi::h::h are"),
         "design_ref": "DESIGN.md section 5, C20",
     },
     "C01": {
